@@ -159,7 +159,7 @@ def run(tier):
     run = Run(PROP, tier, 'proof')
     specs.selfcheck()
     h = build()
-    msyn = h.monomorphise(['f32', 'f64'], bound='<S: BaseFloat>', method_syntax='only', soft=True)
+    msyn = h.monomorphise(['f32', 'f64'], bound=None, kinds=None, method_syntax='only', soft=True)
     S, inv, meta = facts.extract(PROP, h.src())
     report_dropped(run, meta, h)
     run_specs(run, S, h, custom={'axis_action': check_axis_action, 'axis_action_half': check_axis_action, 'basis_invert': check_basis_invert})
